@@ -51,7 +51,6 @@ def judge_events(run, family, module, events_path, label, shards=64, timeout=360
     if not mism:
         return
     log("%s/%s: %d mismatching lines, reproducing up to %d" % (family, label, len(mism), MAX_CONFIRM))
-    evs = vlib.load_events(events_path)
     # one representative per (reason-class): prefer variety
     seen = {}
     for v in mism:
@@ -62,7 +61,13 @@ def judge_events(run, family, module, events_path, label, shards=64, timeout=360
         for k in list(seen):
             if seen[k]:
                 chosen.append(seen[k].pop(0))
-    confirm(run, family, module, [(v, evs[v["l"] - 1]["repro"]) for v in chosen], env=env, race=race, shards=shards)
+    want = {v["l"] for v in chosen}
+    repro = {}
+    with open(events_path) as f:
+        for i, line in enumerate(f, 1):
+            if i in want:
+                repro[i] = json.loads(line)["repro"]
+    confirm(run, family, module, [(v, repro[v["l"]]) for v in chosen], env=env, race=race, shards=shards)
 
 
 def _short(s, n=400):
